@@ -90,6 +90,12 @@ def gen_history(r, start, n_ops, gated=(), allow_missing_reads=True):
                         lst.insert(r.randint(0, len(lst)), c)
                         feats.add("child-insert")
                         ops.append(["child-insert", list(path), k])
+                    elif y < 0.6:
+                        # the SAME object a second time (a parsed STYLE appended to several classes, layers.insert(0, layers[0])):
+                        # it is printed wherever it is referenced
+                        lst.insert(r.randint(0, len(lst)), r.choice(lst))
+                        feats.add("child-shared-reference")
+                        ops.append(["child-shared-reference", list(path), k])
                     elif y < 0.7:
                         lst.pop(r.randrange(len(lst)))
                         feats.add("child-remove")
